@@ -962,8 +962,36 @@ pub mod c01b {
         pub fn emit_jump_to(&mut self, _t: usize) { self.emit(Op::Nop); }
         pub fn patch_jump(&mut self, _p: Placeholder) {}
     }
-    pub struct Compiler { pub builder: Builder, pub redirects: Vec<(u16, u8)> }
+    pub struct Compiler { pub builder: Builder, pub redirects: Vec<(u16, u8)>, pub cont: usize }
     impl Compiler {
+        fn set_continue_target(&mut self, t: usize) { self.cont = t; }
+        /// BAD (R10): `continue` lands after the refresh
+        pub fn bad_for_continue(&mut self, regs: &[(u16, u8)], body: &u32, update: Option<&u32>) {
+            let start = self.builder.code.len();
+            self.compile_statement_impl(body);
+            for (n, r) in regs { self.builder.emit(Op::GetVar { dst: *r, name: *n }); }
+            let c = self.builder.code.len();
+            self.set_continue_target(c);
+            if let Some(u) = update {
+                self.set_loop_var_redirects(regs.to_vec());
+                self.compile_expression(u);
+            }
+            self.builder.emit_jump_to(start);
+        }
+        /// GOOD (R10): `continue` lands on the refresh; the copy of the initial values precedes the body
+        pub fn good_for_continue(&mut self, regs: &[(u16, u8)], body: &u32, update: Option<&u32>) {
+            for (n, r) in regs { self.builder.emit(Op::GetVar { dst: *r, name: *n }); }
+            let start = self.builder.code.len();
+            self.compile_statement_impl(body);
+            let c = self.builder.code.len();
+            self.set_continue_target(c);
+            for (n, r) in regs { self.builder.emit(Op::GetVar { dst: *r, name: *n }); }
+            if let Some(u) = update {
+                self.set_loop_var_redirects(regs.to_vec());
+                self.compile_expression(u);
+            }
+            self.builder.emit_jump_to(start);
+        }
         fn compile_statement_impl(&mut self, _s: &u32) {}
         fn compile_expression(&mut self, _s: &u32) {}
         fn set_loop_var_redirects(&mut self, v: Vec<(u16, u8)>) { self.redirects = v; }
